@@ -247,6 +247,13 @@ def shard_task(args):
            'shard': shard, 'config': config, 'timed_out': 0, 'exhaustive_cases': 0,
            'shrunk': None}
     try:
+        _old_hook = sys.unraisablehook
+
+        def _hook(u):
+            if isinstance(u.exc_value, CaseTimeout):
+                return   # the per-case alarm fired inside a GC callback or __del__: nothing to report
+            _old_hook(u)
+        sys.unraisablehook = _hook
         setup_library(config)
         mod = load_prop(prop_id)
         ctx = Ctx(prop_id, tier, config, matchers=load_matchers(prop_id))
